@@ -67,6 +67,15 @@ Example C02_grammar_sound_nonvacuous :
 Proof. exact ex_ptree_ok. Qed.
 Print Assumptions C02_grammar_sound_nonvacuous.
 
+(* "(1:2)#3", a complement directly after a closing parenthesis: (1:2) AND NOT cell 3 *)
+Example C02_grammar_sound_glued_complement :
+  pwf cell_productions ex_ptree2 = true /\ proot ex_ptree2 = "geometry_expr"%string /\
+  uses_shortcut ex_ptree2 = false /\ hash_neg (pyield ex_ptree2) = false /\
+  strip (pyield ex_ptree2) = [TLParen; TLeaf true 1; TColon; TLeaf true 2; TRParen; TCompl 3]%Z /\
+  option_map sem_tree (pact ex_ptree2) = Some (BAnd (BOr (BSurf true 1) (BSurf true 2)) (BCompl 3))%Z.
+Proof. exact ex_ptree2_ok. Qed.
+Print Assumptions C02_grammar_sound_glued_complement.
+
 (* the same at the level the rest of the model works at (padding erased): productions with their actions *)
 Theorem C02_derives_sound : forall l ts t, Derives l ts t -> GD l ts (sem_tree t).
 Proof. exact derives_sound. Qed.
